@@ -940,4 +940,42 @@ theorem dirichlet_limit_connected_bipartite (nRow nCol nnz : Nat) (B : Nat → N
   · rw [getD_take _ _ _ _ hi]; exact hv i (by omega)
   · rw [getD_drop]; exact hv (nRow + j) (by omega)
 
+/-- Non-vacuity of `dirichlet_limit_connected_bipartite`: the 1×1 biadjacency matrix `[[2]]` with `values_row = {0: 3}`:
+the routing is bipartite with seeds `[3, −1]`, the block graph on 2 nodes is connected, and `fit` returns. -/
+example : (getAdjacencyValues 1 1 1 (fun _ _ => 2) { valuesRow := .dict [(0, 3)] }).toOption.map
+    (fun p => (p.n, p.seeds, p.bipartite)) = some (2, [3, -1], true) := by decide +kernel
+example : Connected 2 (blockMat 1 (fun _ _ => 2)) := by
+  intro i j hi hj
+  have hi' : i = 0 ∨ i = 1 := by omega
+  have hj' : j = 0 ∨ j = 1 := by omega
+  rcases hi' with rfl | rfl <;> rcases hj' with rfl | rfl
+  · exact .refl (by omega)
+  · exact .head (k := 1) (by omega) (by decide +kernel) (.refl (by omega))
+  · exact .head (k := 0) (by omega) (by decide +kernel) (.refl (by omega))
+  · exact .refl (by omega)
+example : (fit .dirichlet 1 1 1 (fun _ _ => 2) { valuesRow := .dict [(0, 3)] } 5 0).toOption
+    = some ⟨[3], some [3], some [3]⟩ := by decide +kernel
+
+/-- **fit_returns (dict form)**: on a square non-empty matrix, a non-empty dict with distinct nodes `< n`, `n_iter ≥ 1`
+and either an `init` or an entry with a temperature `≥ 0`: both estimators return. -/
+theorem fit_returns_dict (algo : Algo) (n nnz : Nat) (B : Nat → Nat → Rat) (kv : List (Nat × Rat)) (init : Option Rat)
+    (nIter : Int) (α : Rat) (hne : kv ≠ []) (hk : ∀ e, e ∈ kv → e.1 < n) (hnd : (kv.map (·.1)).Nodup)
+    (hpos : 0 < nIter) (hnnz : nnz ≠ 0) (hseed : init.isSome ∨ ∃ e, e ∈ kv ∧ 0 ≤ e.2) :
+    ∃ out, fit algo n n nnz B { values := .dict (toKV kv), init := init } nIter α = .ok out := by
+  have hsame := sameValues_dict_arr (n := n) hne hk hnd
+  have hc := fit_congr (algo := algo) (nRow := n) (nCol := n) (nnz := nnz) (B := B) (nIter := nIter) (α := α)
+    (a := { values := .dict (toKV kv), init := init }) (a' := { values := .arr (seedsArray n kv (-1)), init := init })
+    hsame (SameValues.refl n .none) (SameValues.refl n .none) rfl rfl
+  rw [hc]
+  refine (fit_returns algo n nnz B (seedsArray n kv (-1)) init nIter α).1 hpos hnnz (by simp [seedsArray]) ?_
+  rcases hseed with h | ⟨e, he, hpos'⟩
+  · exact Or.inl h
+  · right
+    refine ⟨e.1, hk e he, ?_⟩
+    obtain ⟨r, hr, _, hin, _⟩ := getValues_dict_nodup (d := -1) hne hk hnd
+    have harr := getValues_dict_eq_array (d := -1) hne hk hnd
+    rw [hr] at harr
+    cases harr
+    rw [hin e he]; exact hpos'
+
 end SkNet.C14
